@@ -87,10 +87,10 @@ CHECKS["C01"] = {
         "quick": [{"pkg": "internal/pfcp", "entries": ["ZZ_C01_*"], "witnesses": 3, "max_paths": 400000, "budget_s": 600}],
         "thorough": [{"pkg": "internal/pfcp", "entries": ["ZZ_C01_*"], "witnesses": 6, "max_paths": 5000000, "budget_s": 3000}],
     },
-    "covers": {"all": ["ZZ_C01_OwnNodeID:C01.own-nodeid.done", "ZZ_C01_URRRecreated:C01.urr-recreated.done", "ZZ_C01_URRRecreated:C01.urr-recreated.recreated", "ZZ_C01_FAR:C01.hist.done", "ZZ_C01_FAR:C01.est.done", "ZZ_C01_FAR:C01.mod.done", "ZZ_C01_FAR:C01.del.done",
+    "covers": {"all": ["ZZ_C01_OwnNodeID:C01.own-nodeid.done", "ZZ_C01_URRRecreated:C01.urr-recreated.done", "ZZ_C01_TwoNodesSeid0:C01.two-nodes-seid0.done", "ZZ_C01_URRRecreated:C01.urr-recreated.recreated", "ZZ_C01_FAR:C01.hist.done", "ZZ_C01_FAR:C01.est.done", "ZZ_C01_FAR:C01.mod.done", "ZZ_C01_FAR:C01.del.done",
                        "ZZ_C01_FAR:C01.assoc.ended-session", "ZZ_C01_FAR:C01.reportrsp.done", "ZZ_C01_URR:C01.hist.done", "ZZ_C01_PDR:C01.hist.done", "ZZ_C01_PDRURR:C01.hist.done", "ZZ_C01_PDRURR:C01.del.done"]},
     "bounds": {
-        "quick": "histories of 3 steps after an association, per rule kind (FAR, QER, BAR, URR, PDR): each step one of Association Setup (2 nodes; node A from its usual or from another source address), Establishment (0..2 Create IEs), Modification (one Create/Update/Remove/Query IE), Deletion, Session Report Response (SEID 0 or not); rule ids from {1,2} or unconstrained; one symbolic fault per create/update/query data-plane call; plus one fixed history: Establishment, 1..2 Modifications that carry the owner's OWN Node ID, re-association; plus one URR id queried / removed / created again over 3 requests with a data plane that answers a query or removal with 0 or 1 usage report, the session then ended by Deletion, re-association or a SEID-0 report response (every rule withdrawn)",
+        "quick": "histories of 3 steps after an association, per rule kind (FAR, QER, BAR, URR, PDR): each step one of Association Setup (2 nodes; node A from its usual or from another source address), Establishment (0..2 Create IEs), Modification (one Create/Update/Remove/Query IE), Deletion, Session Report Response (SEID 0 or not); rule ids from {1,2} or unconstrained; one symbolic fault per create/update/query data-plane call; plus one fixed history: Establishment, 1..2 Modifications that carry the owner's OWN Node ID, re-association; plus one URR id queried / removed / created again over 3 requests with a data plane that answers a query or removal with 0 or 1 usage report, the session then ended by Deletion, re-association or a SEID-0 report response (every rule withdrawn); and two associated nodes establishing one session each (symbolic CP SEIDs) followed by a SEID-0 report response",
         "thorough": "same with 4 steps",
     },
     "outside": "longer histories; more than 2 addressed sessions; several rule kinds mixed in one history (each kind is a separate shard); remove failures (excluded by the property's fault model)",
@@ -284,9 +284,9 @@ CHECKS["C10"] = {
                      {"pkg": "internal/forwarder", "entries": ["ZZ_C10_*"], "witnesses": 6, "max_paths": 4000000, "budget_s": 3000}],
     },
     "covers": {"all": ["ZZ_C10_AfterTakeover:C10.takeover.done", "ZZ_C10_Notify:C10.notify.done", "ZZ_C10_Notify:C10.notify.unknown-session", "ZZ_C10_Notify:C10.notify.unknown-urr-dropped", "ZZ_C10_ModRsp:C10.rsp.done",
-                       "ZZ_C10_AfterHistory:C10.history.done", "ZZ_C10_AfterHistory:C10.history.recreated", "ZZ_C10_AfterHistory:C10.history.urr-gone",
+                       "ZZ_C10_Configured:C10.configured.done", "ZZ_C10_AfterHistory:C10.history.done", "ZZ_C10_AfterHistory:C10.history.recreated", "ZZ_C10_AfterHistory:C10.history.urr-gone",
                        "ZZ_C10_Multicast:C10.mcast.done", "ZZ_C10_Results:C10.result.done", "ZZ_C10_Multi:C10.multi.done", "ZZ_C10_Multi:C10.multi.split"]},
-    "bounds": {"quick": "data-plane side: REPORT multicast with 1..2 reports over two distinct symbolic SEIDs, symbolic URR ids and six 64-bit counters each, every one of the 18 single-cause trigger words, two concrete instant pairs; query/update/remove results with a symbolic trigger word; multi-URR (periodic) query of 1, 3, limit, limit+1 and 2*limit+2 (SEID, URR) pairs over three sessions (limit = gtp5gnl.MaxNetlinkUsageReportNum, so sessions straddle netlink request boundaries), every pair answered once with counters that encode the pair and one solver-chosen pair with symbolic counters. PFCP side: a session of either peer with two URRs whose DURAT/VOLUM/EVENT/MNOP settings are symbolic Booleans, batches of 1..2 reports naming arbitrary (known or unknown) URR ids with a symbolic 22-bit trigger word and symbolic counters, delivered for an arbitrary SEID; query / removal / deletion results in the Modification / Deletion response; takeover: 0..2 reports, a Modification from node B naming node B, one more report - which must go to B; after a history of 3 requests on one URR (query, update, remove, create again, remove its PDR; each query/update/removal answered by the data plane with 0 or 1 report) two reports for the URR, if it exists then, are both delivered",
+    "bounds": {"quick": "data-plane side: REPORT multicast with 1..2 reports over two distinct symbolic SEIDs, symbolic URR ids and six 64-bit counters each, every one of the 18 single-cause trigger words, two concrete instant pairs; query/update/remove results with a symbolic trigger word; multi-URR (periodic) query of 1, 3, limit, limit+1 and 2*limit+2 (SEID, URR) pairs over three sessions (limit = gtp5gnl.MaxNetlinkUsageReportNum, so sessions straddle netlink request boundaries), every pair answered once with counters that encode the pair and one solver-chosen pair with symbolic counters. PFCP side: a session of either peer with two URRs whose DURAT/VOLUM/EVENT/MNOP settings are symbolic Booleans, batches of 1..2 reports naming arbitrary (known or unknown) URR ids with a symbolic 22-bit trigger word and symbolic counters, delivered for an arbitrary SEID; query / removal / deletion results in the Modification / Deletion response; takeover: 0..2 reports, a Modification from node B naming node B, one more report - which must go to B; after a history of 3 requests on one URR (query, update, remove, create again, remove its PDR; each query/update/removal answered by the data plane with 0 or 1 report) two reports for the URR, if it exists then, are both delivered; a URR configured through the handlers - Create URR with symbolic DURAT/VOLUM and an optional Measurement Information IE, then 0-1 (thorough 0-2) Update URRs each with or without a Measurement Method / Measurement Information IE - reports with the IE set of its current configuration",
                "thorough": "batches of up to 3 reports; histories of 4 requests"},
     "outside": "symbolic instants (the NTP conversion divides by 10^9; two concrete instants incl. the last second of NTP era 0); more than 3 reports per batch",
     "assumptions": PFCP_ASSUME + FWD_ASSUME,
